@@ -136,7 +136,8 @@ def collapse_statevector_to_desired_measurement(statevector, qubit, result, orde
     if result not in {0, 1}:
         raise ValueError(f"Result is not valid, must be an integer of 0 or 1 but received {result}")
 
-    if order.lower() not in {"lsq_first", "msq_first"}:
+    order = order.lower()
+    if order not in {"lsq_first", "msq_first"}:
         raise ValueError("Order must be lsq_first or msq_first")
 
     before_index_length = 2**qubit if order == "lsq_first" else 2**(n_qubits-1-qubit)
